@@ -329,6 +329,9 @@ def evaluate(ctx, case):
         if isinstance(b, int) and b in accepted:
             want.append((accepted.index(b), b, block_atoms[bi], block_res[bi]))
     nmol = len(want)
+    ctx.oracle_ok(1)
+    if sysm.fgro != path or sysm.system_gro.fgro != path:
+        ctx.oracle_fail("System.fgro:not-the-file-name", case, {"fgro": sysm.fgro})
     ctx.case({k: case[k] for k in ("cls", "species", "blocks", "load", "ops", "vel", "coordseed")},
              nontrivial=nmol >= 2,
              sample={"cls": case["cls"], "blocks": len(blocks), "load": load, "molecules": nmol})
@@ -418,7 +421,8 @@ def evaluate(ctx, case):
                 continue
             if op[0] == "o":
                 ctx.count("op:o:" + str(op[1]))
-                if res != ("E", "TypeError"):
+                if res != ("E", "TypeError") and not (str(op[1]).startswith("np") and res[0] == "M"):
+                    # (a numpy integer is an index for a Python list; the system refuses it today)
                     ctx.oracle_fail("System.__getitem__(other type):not-a-TypeError", case, {"op": op, "got": res[:2]})
                     break
                 continue
